@@ -187,17 +187,26 @@ def main(argv=None):
 
     findings = [f for f in load_findings() if f.get("property") == prop]
     known_sigs = {f["signature"]: f for f in findings}
+
+    def is_known(v):
+        """A listed finding is identified by its signature AND (when recorded) its minimal witness; the first witness of a
+        signature is deterministic (units are merged in order), so the same defect always presents the same witness."""
+        f = known_sigs.get(v["signature"])
+        return f is not None and ("case" not in f or jsonable(f["case"]) == jsonable(v["case"]))
+
     by_sig = {}
     for v in merged.violations:
         by_sig.setdefault(v["signature"], v)
     new, known, irreproducible = [], [], []
-    for sig, v in by_sig.items():
+    for n_confirmed, (sig, v) in enumerate(by_sig.items()):
+        if n_confirmed >= 12 and new:
+            break   # enough distinct confirmed signatures for a verdict; the rest stay listed in the evidence counters
         how = confirm(mod, v)
         if how is None:
             irreproducible.append(v)
             continue
         v["confirmed_by"] = how
-        (known if sig in known_sigs else new).append(v)
+        (known if is_known(v) else new).append(v)
 
     status = 0
     for v in known:
